@@ -11,7 +11,7 @@ import json
 import os
 import facts as F
 from cfg import CFG
-from flow import Flow, call_sites, arg_local, last_seg
+from flow import Flow, call_sites, arg_local, last_seg, PASS_LAST
 from tables import str_arms, exclusive_regions, enum_switches, region_aggregates, region_calls, transitive_callees
 from byteclass import outcome_partition, classify, arg_subject, ret_shape, fmt_set, FULL, shape, predicate_sets
 from sym import PathSym, walk, strip, show
@@ -28,6 +28,9 @@ DEC_ROLES = {
     "DCTDecode": ("dct", lambda ns: any(n.startswith("jpeg_decoder::") for n in ns)),
     "RunLengthDecode": ("runlength", None),
 }
+
+# the bodies whose byte classes rule_bytes tabulates (a renamed body is re-identified by its shape, rules/anchor_profiles.json)
+DEC_BODIES = {"ASCIIHexDecode": "enc::decode_hex", "ASCII85Decode": "enc::decode_85", "RunLengthDecode": "enc::run_length_decode"}
 
 
 def filter_name_reader(ctx, f):
@@ -120,6 +123,12 @@ def rule_dispatch(ctx, f):
         ctx.check(ok, "C05-TABLE-dec", "enc::decode#" + vn,
                   "filter %s is dispatched to %s, which is not a %s decoder" % (vn, callee[0], role), b["span"],
                   detail="%s -> %s (%s)" % (vn, callee[0], role))
+        # the byte classes of these decoders are tabulated on named bodies (C05-TABLE): the body the filter is dispatched to must be that one
+        want_body = DEC_BODIES.get(vn)
+        if want_body is not None:
+            ctx.check(callee[0] == want_body or want_body in transitive_callees(f, cb, depth=2), "C05-TABLE-dec", "enc::decode#" + vn + ".analysed", "filter %s is dispatched to %s, but the byte classes (digits, white-space, EOD, "
+                      "padding) are established for %s: the decoder in use is not the one whose table was checked" % (vn, callee[0], want_body), b["span"],
+                      detail="%s -> %s, the body tabulated by C05-TABLE" % (vn, want_body))
     return table
 
 
@@ -311,6 +320,35 @@ def rule_bytes(ctx, f):
         ok = ok and sided
         ctx.check(ok, "C05-TABLE", "enc::decode_hex#odd-digit", "an odd final hex digit is not padded with 0 (7.4.2)", hb["span"],
                   detail="parity test dominates a push of '0'")
+        # the FIRST digit of a pair is the high nibble: the value shifted left by 4 is decode_nibble of element 0 of the pair, the value or-ed
+        # in is decode_nibble of element 1 (field-sensitive trace through the tuple patterns)
+        def digit_index(op):
+            pl = F.op_place(op)
+            if pl is None:
+                return None
+            r = hfl.resolve(pl)
+            ds = hfl.defs.get(r[0], [])
+            if len(ds) != 1 or ds[0][0] != "call" or last_seg(F.callee_name(ds[0][2])) != "decode_nibble":
+                return None
+            ap = F.op_place(ds[0][2]["args"][0])
+            if ap is None:
+                return None
+            ar = hfl.resolve(ap)
+            last = [e for e in ar[1:] if e[0] in ("field", "constindex")]
+            return (ar[0], last[-1][1]) if last else None
+        order = None
+        for i, j, st in F.stmts(hb):
+            if st[0] == "assign" and st[2][0] == "binop" and st[2][1].startswith("Shl") and F.const_int(st[2][3]) == 4:
+                hi = digit_index(st[2][2])
+                lo = None
+                for i2, j2, st2 in F.stmts(hb):
+                    if st2[0] == "assign" and st2[2][0] == "binop" and st2[2][1] in ("BitOr", "Add", "BitXor") and st[1][0] in (F.op_local(st2[2][2]), F.op_local(st2[2][3])):
+                        other = st2[2][3] if F.op_local(st2[2][2]) == st[1][0] else st2[2][2]
+                        lo = digit_index(other)
+                order = (hi, lo)
+        ctx.check(order is not None and order[0] is not None and order[1] is not None and order[0][0] == order[1][0] and (order[0][1], order[1][1]) == (0, 1),
+                  "C05-TABLE", "enc::decode_hex#nibble-order", "the first digit of a pair is not (visibly) the high nibble of the byte: (base, element) of the shifted / or-ed digit = %s; "
+                  "`4A` must decode to 0x4A" % (order,), hb["span"], detail="byte = nibble(pair.0) << 4 | nibble(pair.1)")
     # --- ascii85
     sb = f.body("enc::sym_85")
     if sb is None:
@@ -443,8 +481,22 @@ def rule_bytes(ctx, f):
         ctx.check(rep == want_rep, "C05-TABLE", "enc::run_length_decode#repeat", "length bytes %s start a repeat of 257-n (spec 129..255)" % fmt_set(rep), rb["span"], detail="129..255 -> repeat 257-n")
         ctx.check(eod == {128}, "C05-TABLE", "enc::run_length_decode#eod", "length bytes %s end the data (spec 128)" % fmt_set(eod), rb["span"], detail="128 -> EOD")
         # literal run length n+1: end = (c+1) + n + 1
-        adds1 = sum(1 for i, j, s in F.stmts(rb) if s[0] == "assign" and s[2][0] == "binop" and s[2][1].startswith("Add") and F.const_int(s[2][3]) == 1)
-        ctx.check(adds1 >= 2, "C05-TABLE", "enc::run_length_decode#n+1", "literal run is not n+1 bytes after the length byte", rb["span"], detail="start = c+1, end = start+n+1")
+        from linear import linear, difference
+        rfl = Flow(rb)
+        runs = []
+        for i, j, s in F.stmts(rb):
+            if s[0] == "assign" and s[2][0] == "aggregate" and s[2][1].get("adt") == "std::ops::Range" and len(s[2][2]) == 2:
+                st_, df_ = linear(rfl, s[2][2][0]), difference(rfl, s[2][2][1], s[2][2][0])
+                runs.append((st_, df_))
+        for bi, t in F.calls(rb):
+            # `start..=start + n`
+            if last_seg(F.callee_name(t)) == "new" and "RangeInclusive" in F.callee_name(t) + t.get("callee_full", "") and len(t["args"]) == 2:
+                st_, df_ = linear(rfl, t["args"][0]), difference(rfl, t["args"][1], t["args"][0])
+                runs.append((st_, (df_[0], df_[1] + 1) if df_ is not None else None))
+        okr = len(runs) == 1 and runs[0][0] is not None and runs[0][1] is not None and runs[0][0][1] == 1 and list(runs[0][0][0].values()) == [1] and \
+            runs[0][1][1] == 1 and list(runs[0][1][0].values()) == [1]
+        ctx.check(okr, "C05-TABLE", "enc::run_length_decode#n+1", "the literal run is not the n + 1 bytes that follow the length byte (start, end - start as sums: %s)" % (runs,),
+                  rb["span"], detail="start = c + 1, end - start = n + 1")
     # --- predictor tags
     pb = f.body("enc::PredictorType::from_u8")
     if pb is None:
@@ -709,6 +761,11 @@ def rule_geometry(ctx, f):
                 for side, o in ((0, st[2][2]), (1, st[2][3])):
                     other = st[2][3] if side == 0 else st[2][2]
                     c = F.const_int(other)
+                    if c is None and F.op_local(other) is not None:
+                        # a constant that went through a cast (`u16::MAX as usize`)
+                        oa = fl.origins(F.op_local(other))
+                        if oa and all(a[0] == "const" and isinstance(a[1], dict) and "int" in a[1] for a in oa):
+                            c = max(a[1]["int"] for a in oa)
                     if c is None:
                         continue
                     fs = set()
@@ -719,6 +776,12 @@ def rule_geometry(ctx, f):
                     if pl:
                         Flow._note_fields(pl, fs)
                     which = fs & {"n_components", "columns"}
+                    if not which and l is not None and c > 1 and st[2][1] in ("Lt", "Le", "Gt", "Ge"):
+                        # a quantity computed from them (the row length `columns * colours`) held against a constant limit
+                        fs2 = set()
+                        fl.origins(l, fields=fs2)
+                        if fs2 & {"n_components", "columns"}:
+                            bad.append("a value computed from %s %s %d" % ("/".join(sorted(fs2 & {"n_components", "columns"})), st[2][1], c))
                     if len(which) != 1:
                         continue
                     n += 1
@@ -740,10 +803,67 @@ def rule_geometry(ctx, f):
               "columns is refused" % ", ".join(bad), b["span"], detail="Colors < 1 || Columns < 1 -> error, nothing else")
 
 
+# ISO 32000-1 Table 8: optional parameters of LZWDecode / FlateDecode and their defaults; the field each is read into
+LZW_FLATE_PARAMS = {"Predictor": ("predictor", 1), "Colors": ("n_components", 1), "BitsPerComponent": ("bits_per_component", 8), "Columns": ("columns", 1),
+                    "EarlyChange": ("early_change", 1)}
+
+
+def rule_defaults(ctx, f):
+    ctx.rule("C05-USE-defaults", "the decode parameters of LZWDecode / FlateDecode are read from the keys of Table 8 into the fields the decoders use, and an absent key "
+             "(or an absent /DecodeParms) means the specification's default (Predictor 1, Colors 1, BitsPerComponent 8, Columns 1, EarlyChange 1)")
+    b = f.impl_method("object::FromDict", "enc::LZWFlateParams", "from_dict")
+    if b is None:
+        ctx.lost("C05-USE-defaults", "<LZWFlateParams as FromDict>::from_dict")
+        return
+    fl = Flow(b)
+    cfg = CFG(b)
+    site_key = {}
+    n = 0
+    for bi, t in F.calls(b):
+        if F.callee_name(t) != "primitive::Dictionary::remove":
+            continue
+        key = F.const_str(t["args"][1])
+        if key is None:
+            ks = [a[1]["str"] for a in fl.origins(arg_local(t, 1)) if a[0] == "const" and isinstance(a[1], dict) and "str" in a[1]] if arg_local(t, 1) is not None else []
+            key = ks[0] if len(ks) == 1 else None
+        sw = b["blocks"][t["target"]]["term"]
+        if key is None or sw["k"] != "switch":
+            continue
+        site_key[bi] = key
+        arms = {a[0]: a[1] for a in sw["arms"]}
+        none_t, some_t = arms.get(0, sw["otherwise"]), arms.get(1, sw["otherwise"])
+        only = (cfg.reachable_from(none_t, avoid={some_t}) | {none_t}) - cfg.reachable_from(some_t)
+        consts = [st[2][1][1].get("int") for r in sorted(only) for st in b["blocks"][r]["stmts"] if st[0] == "assign" and st[2][0] == "use" and st[2][1][0] == "const" and
+                  "int" in st[2][1][1] and st[2][1][1].get("ty") == "i32"]
+        if key in LZW_FLATE_PARAMS:
+            n += 1
+            ctx.check(consts[:1] == [LZW_FLATE_PARAMS[key][1]], "C05-USE-defaults", "LZWFlateParams#" + key, "an absent /%s is read as %s, Table 8 says %d: streams that leave the key out "
+                      "(the normal case) are decoded with the wrong setting" % (key, consts[:1], LZW_FLATE_PARAMS[key][1]), t["span"], detail="/%s default %d" % (key, LZW_FLATE_PARAMS[key][1]))
+    ctx.floor("C05-USE-defaults", n, 5, "keys of LZWFlateParams with a default")
+    # field <- key
+    for i, j, st in F.stmts(b):
+        if st[0] == "assign" and st[2][0] == "aggregate" and st[2][1].get("adt") == "enc::LZWFlateParams":
+            for fname, op in zip(st[2][1]["fields"], st[2][2]):
+                l = F.op_local(op)
+                keys = sorted({site_key[a[2]] for a in fl.origins(l, passthrough=PASS_LAST + ("from_primitive",)) if a[0] == "call" and a[2] in site_key}) if l is not None else []
+                want = [k for k, (fn_, d_) in LZW_FLATE_PARAMS.items() if fn_ == fname]
+                ctx.check(keys == want, "C05-USE-defaults", "LZWFlateParams." + fname, "the field %s is read from %s, Table 8 gives %s" % (fname, keys, want), b["span"], detail="%s <- /%s" % (fname, "/".join(want)))
+    d = f.impl_method("std::default::Default", "enc::LZWFlateParams", "default")
+    if d is None:
+        ctx.lost("C05-USE-defaults", "<LZWFlateParams as Default>::default")
+        return
+    for i, j, st in F.stmts(d):
+        if st[0] == "assign" and st[2][0] == "aggregate" and st[2][1].get("adt") == "enc::LZWFlateParams":
+            got = {fn_: F.const_int(op) for fn_, op in zip(st[2][1]["fields"], st[2][2])}
+            want = {fn_: d_ for k, (fn_, d_) in LZW_FLATE_PARAMS.items()}
+            ctx.check(got == want, "C05-USE-defaults", "LZWFlateParams::default", "a stream without /DecodeParms is decoded with %s, Table 8 gives %s" % (got, want), d["span"], detail="Default = Table 8")
+
+
 def run(ctx):
     f = F.load("default")
     ctx.count("bodies", len(f.bodies))
     rule_names(ctx, f)
+    rule_defaults(ctx, f)
     rule_dispatch(ctx, f)
     rule_chain(ctx, f)
     rule_pairing(ctx, f)
